@@ -141,7 +141,7 @@ PROPS = {
         functions=[DS + "AbstractDissimilarity._compute_alignment_disorders", DS + "AbstractDissimilarity._build_arrays_continuum",
                    DS + "AbstractDissimilarity._build_arrays_alignment", AL + "Alignment.annotators", AL + "Alignment.categories#attached",
                    DS + "AbstractDissimilarity.compute_disorder", AL + "Alignment.compute_disorder", AL + "SoftAlignment.compute_disorder",
-                   AL + "Alignment.avg_num_annotations_per_annotator#attached",
+                   AL + "Alignment.avg_num_annotations_per_annotator#attached", AL + "Alignment.disorder#lazy", AL + "UnitaryAlignment.disorder#value",
                    CT + "Continuum.avg_num_annotations_per_annotator", CT + "Continuum.num_units", CT + "Continuum.num_annotators"]
                   + ALIGN_CTORS + [AL + "SoftAlignment.__init__", CT + "Continuum.get_best_alignment", CT + "Continuum.get_best_soft_alignment"],
         oracles=[AL + "Alignment.compute_disorder"],
@@ -149,12 +149,13 @@ PROPS = {
                       what="proved: _build_arrays_alignment (each slot encoded at the RANK of its annotator, whatever its position: D5 at the encoding "
                            "level), AbstractDissimilarity.compute_disorder (kernel o encoding), Alignment.compute_disorder for an alignment "
                            "attached to its continuum (D2: every unitary alignment gets its recomputed disorder, the alignment their sum over "
-                           "x-bar). Not under contract: the lazy Alignment.disorder property, detached alignments, "
+                           "x-bar), the lazy Alignment.disorder property of an attached alignment whose unitary alignments carry their disorders (D3: their "
+                           "sum over x-bar, memoised). Not under contract: detached alignments, "
                            "UnitaryAlignment.compute_disorder (known finding): best, soft and hand-built alignments (attached or not, annotators listed in shuffled order) of random "
                            "grid continua with 2..5 annotators, every built-in dissimilarity family: cached, per-unitary and recomputed "
                            "disorders against the definition written from the statement")],
         design_ref="DESIGN.md section 4 C03, appendix A.3",
-        not_decided=["D3 (the lazy Alignment.disorder property) and detached alignments are bounded only; that the recomputed disorder of a library-returned "
+        not_decided=["detached alignments (no continuum) are bounded only; that the recomputed disorder of a library-returned "
                      "alignment equals the carried one (two different proved computations of the same pair fold) is bounded"],
         trusted=S_COMMON + T_SOLVER,
     ),
